@@ -54,7 +54,25 @@ func randRune(r *lib.Rand, lo, hi int) rune {
 const alnum = "abcdefghijklmnopqrstuvwxyzABCDEFGHIJKLMNOPQRSTUVWXYZ0123456789_-"
 
 // genString draws a string over all of Unicode (valid UTF-8, not normalised).
+// genText: several lines — indented, blank, with trailing blanks, ending in a newline or not — the shape of
+// string a generator might choose to write as a heredoc
+func genText(r *lib.Rand) string {
+	lines := []string{"", "", " a", "  b", "c", "\t d", " ", "  first paragraph", "  second", "x  ", "EOT", " EOT", "${v}", "  %{if}"}
+	n := 1 + r.Intn(5)
+	var sb strings.Builder
+	for i := 0; i < n; i++ {
+		sb.WriteString(lines[r.Intn(len(lines))])
+		if i < n-1 || r.Chance(4, 5) {
+			sb.WriteString("\n")
+		}
+	}
+	return sb.String()
+}
+
 func genString(r *lib.Rand) string {
+	if r.Chance(1, 12) {
+		return genText(r)
+	}
 	switch r.Weighted([]int{2, 10, 3, 1}) {
 	case 0:
 		return ""
